@@ -1,7 +1,10 @@
 (* FeaturesIO.v — decoding of generated cases and encoding of observations for the
    state-feature model (dispatch kind 8).
    case := [order; states; transitions; ignore; nmodels; init; history; tags; hooks;
-            paths; inits; pre; cls; k; retrig]
+            paths; inits; pre; cls; k; retrig; finals]
+     finals      : ids of the states built with final=True.  Decoded and deliberately unused: no mixin
+                   reads State.final (Props/C19.v, C19_error_final_independent); the implementation side
+                   passes the flag, so a dependence on it shows as a disagreement
      retrig      : list of [callback; event; budget]: the enter callback triggers the event on its
                    model the first <budget> times it is invoked (non-empty = re-entrant case)
      paths       : list of [state; [ids from the root ancestor to the state]]   ([] = flat)
@@ -139,13 +142,13 @@ Definition re_fuel : nat := 64.
 
 Definition run_features_case (x : sx) : sx :=
   match x with
-  | L [ox; sx_; tx; ign; N nm; N s0; hx; tgx; hkx; px; ix; prex; clsx; N k; rtx] =>
+  | L [ox; sx_; tx; ign; N nm; N s0; hx; tgx; hkx; px; ix; prex; clsx; N k; rtx; fnx] =>
       match d_list d_feature ox, d_list d_fstate sx_, d_list d_ftrans tx, d_bool ign,
             d_list d_op hx, d_list d_nat tgx, d_list d_nat hkx,
             d_list (d_pair d_nat (d_list d_nat)) px, d_list (d_pair d_nat d_nat) ix,
-            d_list d_triple prex, d_list d_triple clsx, d_list d_triple rtx with
+            d_list d_triple prex, d_list d_triple clsx, d_list d_triple rtx, d_list d_nat fnx with
       | Some o, Some sts, Some ts, Some ig, Some h, Some tags, Some hooks, Some paths, Some inits,
-        Some pre, Some cls, Some rts =>
+        Some pre, Some cls, Some rts, Some _finals =>
           match build o (map snd sts) with
           | Some e => L [N 1; L [N 1; e_fexn e]]
           | None =>
@@ -179,7 +182,7 @@ Definition run_features_case (x : sx) : sx :=
                              L []; L []]]
               end
           end
-      | _, _, _, _, _, _, _, _, _, _, _, _ => L [N 0]
+      | _, _, _, _, _, _, _, _, _, _, _, _, _ => L [N 0]
       end
   | _ => L [N 0]
   end.
